@@ -371,6 +371,16 @@ func (ex *Exec) havocAllHeap(st *State, why string) {
 			}
 		}
 	}
+	// the state of mutexes this function operates on is its own (other code cannot unlock them)
+	for k := range ex.eng.mutexKeys {
+		if v, ok := st.heap[k]; ok {
+			keep[k] = v
+		} else if ex.eng.heapSortOf(k) == "" {
+			continue // never read or written so far: nothing to preserve
+		} else {
+			keep[k] = ex.eng.smt.named("H"+st.epochOf(k)+"_"+k, ex.eng.heapSortOf(k))
+		}
+	}
 	st.heap = keep
 	st.epoch = ex.eng.newEpoch()
 	if !ex.keepGhosts {
